@@ -31,6 +31,11 @@ class InternalError(Exception):
     """The machinery cannot explore soundly (divergent replay, unmodelled primitive used, ...)."""
 
 
+def _num(uid) -> int:
+    import zlib
+    return zlib.crc32(str(uid).encode()) % 20000
+
+
 def _h(v):
     if v is None or isinstance(v, (int, str, bytes, bool, float)):
         return v
@@ -213,6 +218,7 @@ class Sched:
         self.nsteps = 0
         self.nvisible = 0
         self._uid = 0
+        self._uid_by: Dict[str, int] = {}
         self._dyn_id = 1
         self.net = Net(self)
         self.clock = 1_000_000.0
@@ -220,7 +226,18 @@ class Sched:
         self.internal: Optional[BaseException] = None
 
     # ---- registration
-    def new_uid(self, obj=None) -> int:
+    def new_uid(self, obj=None):
+        """Canonical name of a new primitive: <creating thread>.<k-th object created by that thread>.  It does not depend on how the
+        threads were interleaved, so operation labels and state keys of equivalent global states coincide."""
+        self._uid += 1
+        who = self.current.name if self.current is not None else 'setup'
+        k = self._uid_by.get(who, 0) + 1
+        self._uid_by[who] = k
+        if obj is not None:
+            self.objects.append(obj)
+        return f'{who}.{k}'
+
+    def _new_uid_old(self, obj=None) -> int:
         self._uid += 1
         if obj is not None:
             self.objects.append(obj)
@@ -314,7 +331,9 @@ class Sched:
             res = action()
         me.pending = None
         me.nops += 1
-        me.hist = hash((me.hist, label, _h(res)))
+        # the rolling hash of what the thread has observed; a barrier's arrival index is left out (it encodes the arrival ORDER of the
+        # parties, which no code under test here reads: keeping it would make every order of arrival a different state)
+        me.hist = hash((me.hist, label, None if label.endswith('.arrive') else _h(res)))
         if me.oplog is not None:
             me.oplog.append((label, _h(res), note))
         return res
@@ -416,7 +435,7 @@ class Sched:
     # ---- state key for the state-cached search
     def state_key(self):
         th = tuple((t.id, t.state, t.pending.label if t.pending else None, t.nops, t.hist) for t in self.threads)
-        ob = tuple(o.key() for o in self.objects)
+        ob = tuple(sorted(((o.uid, o.key()) for o in self.objects), key=lambda z: z[0]))
         return hash((th, ob))
 
 
@@ -936,7 +955,7 @@ class VSocket:
     def accept(self):
         def act():
             c = self.backlog.popleft()
-            return c, ('127.0.0.1', 40000 + c.uid)
+            return c, ('127.0.0.1', 40000 + _num(c.uid))
         if self.tmo is None:
             return self.s.op(self.lbl + '.accept', lambda: len(self.backlog) > 0 or self.closed, self._chk(act), False)
 
@@ -1076,7 +1095,7 @@ class VSocket:
         return ('127.0.0.1', 0)
 
     def fileno(self):
-        return 1000 + self.uid
+        return 1000 + _num(self.uid)
 
     def __enter__(self):
         return self
